@@ -48,10 +48,26 @@ Lemma eval_e_func n cx ln en ps va body l1 l2 :
    do r <- alloc_clo (mkClo ps va body en (c_fenv c) l1 false); ret (VFun r)).
 Proof. reflexivity. Qed.
 
+(* a local variable that is the left operand of a non-concatenation operator is read late *)
+Definition bin_late (en : env) (o : binop) (a : expr) : option nat :=
+  match o, a with
+  | OConcat, _ => None
+  | _, EVar x => lookup en x
+  | _, _ => None
+  end.
+
 Lemma eval_e_bin n cx ln en o a b :
   eval_e (S n) cx ln en (EBin o a b) =
-  (do av <- eval_e n cx ln en a; do bv <- eval_e n cx ln en b; binop_v n (here cx ln) o av bv).
+  match bin_late en o a with
+  | Some c => do bv <- eval_e n cx ln en b; do av <- read_cell c; binop_v n (here cx ln) o av bv
+  | None => do av <- eval_e n cx ln en a; do bv <- eval_e n cx ln en b; binop_v n (here cx ln) o av bv
+  end.
 Proof. reflexivity. Qed.
+
+Lemma eval_e_bin_early n cx ln en o a b : bin_late en o a = None ->
+  eval_e (S n) cx ln en (EBin o a b) =
+  (do av <- eval_e n cx ln en a; do bv <- eval_e n cx ln en b; binop_v n (here cx ln) o av bv).
+Proof. intros H. rewrite eval_e_bin, H. reflexivity. Qed.
 
 Lemma eval_e_un n cx ln en o a :
   eval_e (S n) cx ln en (EUn o a) = (do av <- eval_e n cx ln en a; unop_v n (here cx ln) o av).
